@@ -254,6 +254,11 @@ class MetricModel:
             raise Skip(f"general {k} metric model in dim {d} not defined")
         if k == "scalar":
             return a[0] + a[1] * sum(x * x for x in q)
+        if k == "blockdiag":
+            # generic RiemannianMetricSystem with a block-diagonal metric class: the parameter (and so the gradients handed to
+            # the user's VJP) is a TUPLE with one entry per block - an array for the diagonal block, a scalar for the scaled identity
+            b1, b2 = self._blocks(q)
+            return (self.M.PositiveDiagonalMatrix(_a([b1])), self.M.PositiveScaledIdentityMatrix(b2, 1))
         if k == "diagonal":
             if d == 1:
                 return _a([a[0] + a[1] * q[0] * q[0]])
@@ -268,9 +273,20 @@ class MetricModel:
             return _a([[a[0] + q[1] * q[1], a[1] * q[0]], [a[1] * q[0], a[2] + q[0] * q[0]]])
         raise KeyError(k)
 
+    def _blocks(self, q):
+        a = self.a
+        return a[0] + a[1] * q[0] * q[0] + q[1] * q[1], a[2] + a[3] * q[0] * q[0]
+
     def vjp(self, q):
         a = self.a
         k, d = self.kind, self.dim
+        if k == "blockdiag":
+            def vjp_blocks(grads):
+                if not (isinstance(grads, tuple) and len(grads) == 2):
+                    raise TypeError(f"block-diagonal metric VJP expects one gradient per block, got {type(grads).__name__} of length {len(grads)}")
+                g1, g2 = grads
+                return _a([g1[0] * 2 * a[1] * q[0] + g2 * 2 * a[3] * q[0], g1[0] * 2 * q[1]])
+            return vjp_blocks
         if self.general:
             _, grad = self._gen_poly(q)
             if k == "scalar":
@@ -294,8 +310,13 @@ class MetricModel:
 
     def dense(self, q):
         """Dense metric array at q (explicit formula, for references)."""
-        p = self.param(q)
         k, d = self.kind, self.dim
+        if k == "blockdiag":
+            b1, b2 = self._blocks(q)
+            out = np.zeros((2, 2), dtype=object)
+            out[0, 0], out[1, 1] = b1, b2
+            return out
+        p = self.param(q)
         if k == "scalar":
             out = np.zeros((d, d), dtype=object)
             for i in range(d):
@@ -313,8 +334,12 @@ class MetricModel:
 
     def require_valid(self, mk, q):
         """Documented precondition: the metric is positive definite at the evaluation point."""
-        p = self.param(q)
         k, d = self.kind, self.dim
+        if k == "blockdiag":
+            for x in self._blocks(q):
+                mk.require(x > 0)
+            return
+        p = self.param(q)
         if k == "scalar":
             mk.require(p > 0)
         elif k == "diagonal":
@@ -455,6 +480,14 @@ def make_system(S, M, mk, kind, dim, mkind="diag", convention="plain", ckind="li
                 model.neg_log_dens, cm.constr, metric=metric, grad_neg_log_dens=model.grad_neg_log_dens,
                 jacob_constr=cm.jacob_constr, mhp_constr=cm.mhp_constr)
         info["hausdorff"] = hausdorff if kind == "constr" else False
+        return sysm, info
+    if kind == "blockdiag":
+        mm = MetricModel(mk, kind, 2, convention=convention)
+        mm.M = M
+        info["metric_model"] = mm
+        info["metric_dense"] = mm.dense
+        sysm = S.RiemannianMetricSystem(model.neg_log_dens, M.PositiveDefiniteBlockDiagonalMatrix, mm.metric_func,
+                                        vjp_metric_func=mm.vjp_metric_func, grad_neg_log_dens=model.grad_neg_log_dens)
         return sysm, info
     if kind in ("scalar", "diagonal", "cholesky", "dense"):
         mm = MetricModel(mk, kind, dim, convention=convention, general=bool(general), degree=gdeg)
